@@ -97,6 +97,10 @@ pub struct Used {
     pub elements: IdHashSet<Element>,
     /// The module's used passive data segments.
     pub data: IdHashSet<Data>,
+    /// Functions that used code takes a reference to with `ref.func`; these
+    /// must stay declared (exported, or listed in an element segment or a
+    /// global initializer) for the module to remain valid.
+    pub ref_funcs: IdHashSet<Function>,
 }
 
 impl Used {
@@ -261,6 +265,10 @@ struct UsedVisitor<'a> {
 impl<'expr> Visitor<'expr> for UsedVisitor<'_> {
     fn visit_function_id(&mut self, &func: &FunctionId) {
         self.stack.push_func(func);
+    }
+
+    fn visit_ref_func(&mut self, e: &RefFunc) {
+        self.stack.used.ref_funcs.insert(e.func);
     }
 
     fn visit_memory_id(&mut self, &m: &MemoryId) {
